@@ -134,7 +134,7 @@ func runOne(pr *Prog, id string, rs *ruleSet, tier, verif, only string, seed int
 	func() {
 		defer func() {
 			if r := recover(); r != nil {
-				l.Infra("checker panic: %v\n%s", r, debug.Stack())
+				l.Fatal("checker panic: %v\n%s", r, debug.Stack())
 			}
 		}()
 		rs.run(pr, l)
@@ -155,13 +155,13 @@ func runOne(pr *Prog, id string, rs *ruleSet, tier, verif, only string, seed int
 func thorough(pr *Prog, id string, rs *ruleSet, l *Ledger, repo, verif string, par int) {
 	p2, err := loadProg(repo, "386")
 	if err != nil {
-		l.Infra("thorough: GOARCH=386 load failed: %v", err)
+		l.Fatal("thorough: GOARCH=386 load failed: %v", err)
 	} else {
 		l2 := NewLedger(id, "thorough")
 		func() {
 			defer func() {
 				if r := recover(); r != nil {
-					l.Infra("checker panic on the 386 load: %v", r)
+					l.Fatal("checker panic on the 386 load: %v", r)
 				}
 			}()
 			rs.run(p2, l2)
@@ -183,7 +183,7 @@ func thorough(pr *Prog, id string, rs *ruleSet, l *Ledger, repo, verif string, p
 	}
 	res, err := runMutants(repo, verif, id, par)
 	if err != nil {
-		l.Infra("thorough: mutants: %v", err)
+		l.Fatal("thorough: mutants: %v", err)
 		return
 	}
 	cnt := map[string]int{}
